@@ -10,6 +10,7 @@ import itertools, os, sys, warnings, random
 warnings.filterwarnings("ignore")
 sys.path.insert(0, os.path.dirname(os.path.dirname(os.path.abspath(__file__))))
 import networkx as nx
+import numpy as np
 import strawberryfields as sf
 from strawberryfields import ops
 from strawberryfields import program_utils as pu
@@ -182,6 +183,42 @@ def check_gbs():
                         return bad(f"gbs compile {perm} {msplit}: dependent gates reordered")
 
 
+def check_optimize_order_sensitive():
+    """C03: neighbouring operations whose composition depends on the order (two preparations, two single-mode
+    GaussianTransforms, daggered and plain gates): the optimised program prepares the same state"""
+    from thewalrus.symplectic import squeezing, rotation
+    S1 = squeezing(0.5, 0.3)
+    S2 = rotation(0.7) @ squeezing(0.4, 0.0)
+    cases = {
+        "Vacuum, Fock(1)": ("fock", lambda q: (ops.Vacuum() | q[0], ops.Fock(1) | q[0])),
+        "Fock(2), Coherent(0.4)": ("fock", lambda q: (ops.Fock(2) | q[0], ops.Coherent(0.4, 0.2) | q[0])),
+        "Squeezed(0.7), Coherent(0.6, 0.3), Rgate(0.2)": ("gaussian", lambda q: (ops.Squeezed(0.7) | q[0], ops.Coherent(0.6, 0.3) | q[0], ops.Rgate(0.2) | q[0])),
+        "Thermal(0.5), Squeezed(0.3)": ("gaussian", lambda q: (ops.Thermal(0.5) | q[0], ops.Squeezed(0.3, 0.4) | q[0])),
+        "GaussianTransform(S1), GaussianTransform(S2)": ("gaussian", lambda q: (ops.Dgate(0.3, 0.1) | q[0], ops.GaussianTransform(S1) | q[0], ops.GaussianTransform(S2) | q[0])),
+        "Sgate(0.3), Sgate(0.1).H, Rgate(0.2), Rgate(0.5).H": ("gaussian", lambda q: (ops.Dgate(0.2) | q[0], ops.Sgate(0.3) | q[0], ops.Sgate(0.1).H | q[0], ops.Rgate(0.2) | q[0], ops.Rgate(0.5).H | q[0])),
+    }
+    for label, (backend, body) in cases.items():
+        EVAL[0] += 1
+        prog = sf.Program(1)
+        with prog.context as q:
+            body(q)
+        import warnings as _w
+        with _w.catch_warnings():
+            _w.simplefilter("ignore")
+            opt = prog.optimize()
+        kw = {"cutoff_dim": 8} if backend == "fock" else {}
+        try:
+            a = sf.Engine(backend, backend_options=kw).run(prog).state
+            b = sf.Engine(backend, backend_options=kw).run(opt).state
+        except Exception as e:
+            bad(f"optimize [{label}]: running raised {type(e).__name__}: {e}")
+            continue
+        oa = [a.quad_expectation(0, ph) for ph in (0.0, 0.9, np.pi / 2)] + [a.mean_photon(0)]
+        ob = [b.quad_expectation(0, ph) for ph in (0.0, 0.9, np.pi / 2)] + [b.mean_photon(0)]
+        if not np.allclose(oa, ob, atol=1e-8):
+            bad(f"optimize [{label}]: the optimised program {[str(c) for c in opt.circuit]} prepares a different state (moments {np.round(np.array(ob).ravel(), 4).tolist()} vs {np.round(np.array(oa).ravel(), 4).tolist()})")
+
+
 def check_gbs_register_histories():
     """GBS measurement collection when the register changed before the measurements (Del / New are GBS primitives):
     the merged MeasureFock acts on exactly the measured subsystems (by label, in ascending order), measuring a subset"""
@@ -255,6 +292,7 @@ if __name__ == "__main__":
         if not V:
             check_gbs()
             check_gbs_register_histories()
+            check_optimize_order_sensitive()
     except Exception:
         import traceback
         traceback.print_exc()
